@@ -165,20 +165,21 @@ func c15parseLabel(s string) (*big.Rat, string, bool) {
 	return n, m[2], ok
 }
 
-// expect: what the property allows a label of (v, unit) under output unit `to` to be expressed in.
-// known=false: the unit is no unit name — the value is printed unchanged with the pass-through unit.
-func (st *c15State) expect(v int64, unit, to string) (known bool, accept map[string]*big.Rat, m *big.Rat, exact bool) {
+// expect: what the property allows a label of the quantity qty (in units of `unit`) under output
+// unit `to` to be expressed in.  known=false: the unit is no unit name — the value is printed
+// unchanged with the pass-through unit.
+func (st *c15State) expect(qty *big.Rat, unit, to string) (known bool, accept map[string]*big.Rat, m *big.Rat, exact bool) {
 	rf, rt := st.recognise(unit), st.recognise(to)
 	if !rf.known {
-		return false, nil, new(big.Rat).SetInt64(v), true
+		return false, nil, new(big.Rat).Set(qty), true
 	}
 	fam := &st.spec[rf.fam]
-	exact = c15exactRegime(fam, v, rf.f)
-	m = new(big.Rat).Mul(new(big.Rat).SetInt64(v), rf.f)
+	exact = qty.IsInt() && qty.Num().IsInt64() && c15exactRegime(fam, qty.Num().Int64(), rf.f)
+	m = new(big.Rat).Mul(qty, rf.f)
 	accept = map[string]*big.Rat{}
 	switch {
 	case to == "auto" || to == "minimum":
-		accept = st.acceptableAuto(fam, v, rf.f, exact)
+		accept = st.acceptableAutoM(fam, c15abs(m), exact)
 	case rt.known && rt.fam == rf.fam:
 		accept[rt.display] = rt.f
 	default:
@@ -191,9 +192,14 @@ func (st *c15State) expect(v int64, unit, to string) (known bool, accept map[str
 
 var c15half = big.NewRat(5001, 1000000)
 
-// checkLabel: the direct oracle for one printed label.  why == "" when it holds.
+// checkLabel: the direct oracle for one printed label of the integer value v.
 func (st *c15State) checkLabel(printed string, v int64, unit, to string) (why string) {
-	known, accept, m, _ := st.expect(v, unit, to)
+	return st.checkLabelQ(printed, new(big.Rat).SetInt64(v), unit, to)
+}
+
+// checkLabelQ: the direct oracle for one printed label of a quantity.  why == "" when it holds.
+func (st *c15State) checkLabelQ(printed string, qty *big.Rat, unit, to string) (why string) {
+	known, accept, m, _ := st.expect(qty, unit, to)
 	if printed == "0" {
 		if !known {
 			if c15abs(m).Cmp(c15half) > 0 {
@@ -269,7 +275,7 @@ func (st *c15State) modelLabel(printed string, v int64, unit, to string) (why st
 	}
 	st.c.Res.ModelCompared++
 	if num.Sign() != 0 && lr.Sign() != 0 && us != lu {
-		_, _, _, exact := st.expect(v, unit, to)
+		_, _, _, exact := st.expect(new(big.Rat).SetInt64(v), unit, to)
 		if (to == "auto" || to == "minimum") && !exact {
 			return "" // unit-step ambiguity under inexact float arithmetic
 		}
@@ -316,38 +322,38 @@ func (x *c15rptCtx) label(site, printed string, v int64, unit, to string) {
 	}
 }
 
-// divided: the sample value after `-divide_by`, as the report's value formatter must print it:
-// v·r truncated toward zero (r = the float64 1/divide_by, taken exactly); where float rounding of
-// the product can fall on either side of an integer both neighbours are admitted.
-func (x *c15rptCtx) divided(v int64) []int64 {
+// divided: the whole sample values a report may print for v after `-divide_by` (r = the float64
+// 1/divide_by, taken exactly).
+// exactDivided: v·r without any truncation (nil when no ratio applies).
+func (x *c15rptCtx) exactDivided(v int64) *big.Rat {
 	r := x.rp.ratio()
 	if !(r > 0 && r != 1) {
-		return []int64{v}
+		return nil
 	}
 	R, ok := c15ratOfFloat(r)
 	if !ok {
+		return nil
+	}
+	return new(big.Rat).Mul(new(big.Rat).SetInt64(v), R)
+}
+
+func (x *c15rptCtx) divided(v int64) []int64 {
+	q := x.exactDivided(v)
+	if q == nil {
 		return []int64{v}
 	}
-	q := new(big.Rat).Mul(new(big.Rat).SetInt64(v), R)
-	t := new(big.Int).Quo(q.Num(), q.Denom()) // big.Int.Quo truncates toward zero
+	// report.New truncates v·r to a whole sample unit before labelling; a formatter that rounds
+	// instead loses no more, so both whole neighbours of the quotient are admitted
+	t := new(big.Int).Quo(q.Num(), q.Denom()) // truncates toward zero
 	if !t.IsInt64() {
 		return []int64{v}
 	}
 	out := []int64{t.Int64()}
-	// nearest integer
-	half := big.NewRat(1, 2)
-	if q.Sign() < 0 {
-		half.Neg(half)
-	}
-	nq := new(big.Rat).Add(q, half)
-	n := new(big.Int).Quo(nq.Num(), nq.Denom())
-	d := c15abs(new(big.Rat).Sub(q, new(big.Rat).SetInt(n)))
-	if n.IsInt64() && d.Cmp(new(big.Rat).Mul(c15abs(q), c15tol)) <= 0 {
-		for _, c := range []int64{n.Int64(), n.Int64() - int64(q.Sign())} {
-			if c != out[0] {
-				out = append(out, c)
-			}
-		}
+	if !q.IsInt() {
+		out = append(out, t.Int64()+int64(q.Sign()))
+	} else {
+		// float rounding of the product may land just below a whole number
+		out = append(out, t.Int64()-int64(q.Sign()))
 	}
 	return out
 }
@@ -358,6 +364,10 @@ func (x *c15rptCtx) valOK(printed string, v int64, to string) bool {
 		if x.st.checkLabel(printed, w, x.from, to) == "" {
 			return true
 		}
+	}
+	// a formatter that does not truncate the quotient to a whole sample unit is just as good
+	if q := x.exactDivided(v); q != nil && x.st.checkLabelQ(printed, q, x.from, to) == "" {
+		return true
 	}
 	return false
 }
@@ -371,15 +381,22 @@ func (x *c15rptCtx) valLabel(site, printed string, v int64, to string) {
 		return
 	}
 	var why string
-	okw := int64(0)
 	found := false
+	pass := map[int64]bool{}
 	for _, w := range ws {
-		if why = x.st.checkLabel(printed, w, x.from, to); why == "" {
-			okw, found = w, true
-			break
+		if wy := x.st.checkLabel(printed, w, x.from, to); wy == "" {
+			pass[w], found = true, true
+		} else if why == "" {
+			why = wy
 		}
 	}
 	if !found {
+		if q := x.exactDivided(v); q != nil && x.st.checkLabelQ(printed, q, x.from, to) == "" {
+			// the untruncated quotient, correctly labelled: the property holds; the model (which
+			// truncates like report.New does today) is not consulted
+			x.st.c.Res.Hit("rpt:divide_by-untruncated-quotient")
+			return
+		}
 		x.viol("C15/report/"+x.rp.Mode+"/divide_by/"+site, fmt.Sprintf("%s of %d %q divided by %v (= %d) is printed %q (output unit %q): %s", site, v, x.from, x.rp.DivideBy, ws[0], printed, to, why))
 		return
 	}
@@ -392,21 +409,21 @@ func (x *c15rptCtx) valLabel(site, printed string, v int64, to string) {
 	t := &c15tr{toks: strings.Fields(rep)}
 	mw := t.big()
 	bk := "theorem formatValue_labels_divided_value / correspondence Measure.formatValue ~ report.New's value formatter"
-	if t.bad {
+	if t.bad || !mw.IsInt64() {
 		x.failed = true
 		x.st.c.Disagree("C15/model-report/"+x.rp.Mode+"/divide_by/bad-reply", x.cs.Text+": "+c15trunc(rep), bk, x.cs)
 		return
 	}
-	inCands := false
-	for _, w := range ws {
-		inCands = inCands || (mw.IsInt64() && mw.Int64() == w)
-	}
-	if !inCands {
+	if mw.Int64() != ws[0] {
 		x.failed = true
-		x.st.c.Disagree("C15/model-report/"+x.rp.Mode+"/divide_by/divided-value", fmt.Sprintf("%s: %d × %v: model %s, expected %v", x.cs.Text, v, x.rp.ratio(), mw.String(), ws), bk, x.cs)
+		x.st.c.Disagree("C15/model-report/"+x.rp.Mode+"/divide_by/divided-value", fmt.Sprintf("%s: %d × %v: model %s, truncated quotient %d", x.cs.Text, v, x.rp.ratio(), mw.String(), ws[0]), bk, x.cs)
 		return
 	}
-	if why := x.st.modelLabel(printed, okw, x.from, to); why != "" {
+	if !pass[ws[0]] {
+		x.st.c.Res.Hit("rpt:divide_by-other-whole-neighbour")
+		return // printed the other whole neighbour of the quotient (rounding instead of truncating)
+	}
+	if why := x.st.modelLabel(printed, ws[0], x.from, to); why != "" && len(pass) == 1 {
 		x.failed = true
 		x.st.c.Disagree("C15/model-report/"+x.rp.Mode+"/divide_by/"+site, fmt.Sprintf("%s: %s of %d %q divided by %v printed %q (output unit %q): %s", x.cs.Text, site, v, x.from, x.rp.DivideBy, printed, to, why), bk, x.cs)
 	}
